@@ -47,7 +47,7 @@ def reference(nkeys, log, pub_bytes, cb):
     return exp, ('ok' if v == 'cnxn' else 'timeout'), (1 if cb else 0)
 
 
-def one_connect(s, nkeys, cb, pub_bytes, strays, maxdata, viol, tag):
+def one_connect(s, nkeys, cb, pub_bytes, strays, maxdata, viol, tag, kform=None):
     env = s.env
     keys = [StubSigner(i, pub_bytes) for i in range(nkeys)]
     calls = []
@@ -59,15 +59,24 @@ def one_connect(s, nkeys, cb, pub_bytes, strays, maxdata, viol, tag):
     mark = len(env.events)
     kw = {'transport_timeout_s': TT, 'read_timeout_s': RT, 'auth_timeout_s': AT,
           '_sim': {'auth': {'first': 'choose', 'sig': 'choose', 'pub': 'choose', 'strays': strays, 'maxdata': maxdata, 'pub_delay': 2.5, 'late_delay': 7.0}}}
-    if nkeys:
+    if kform == 'tuple':
+        kw['rsa_keys'] = tuple(keys)
+    elif kform == 'list' or (nkeys and kform is None):
         kw['rsa_keys'] = keys
+    elif kform == 'none':
+        kw['rsa_keys'] = None
     if cb:
         kw['auth_callback'] = callback
     r = s.op(('connect', kw))
     auth = env.auths[-1] if env.auths else None
     log = [(k, v) for k, v in (auth.log if auth else [])]
     hp = [p for w, p in env.events[mark:] if w == 'H']
-    exp, outcome, ncb = reference(nkeys, log, pub_bytes, cb)
+    try:
+        exp, outcome, ncb = reference(nkeys, log, pub_bytes, cb)
+    except StopIteration:
+        # the device model stopped deciding before the handshake spec was through: it never recognised a packet the host owed it
+        viol.append({'msg': '%s: the device received no well-formed packet where the handshake spec expects the next one (decisions so far %r, issues %r, connect() gave %r)' % (tag, log, env.issues[:2], r[:2])})
+        return r, log, [(nkeys, i, kv) for i, kv in enumerate(log)]
     # 1. first packet
     if not hp or hp[0].key() != (b'CNXN', 0x01000000, 1024 * 1024, b'host::verif\0'):
         viol.append({'msg': '%s: first host packet is %r' % (tag, hp[:1])})
@@ -87,7 +96,8 @@ def one_connect(s, nkeys, cb, pub_bytes, strays, maxdata, viol, tag):
                 if p.a0 != 2 or p.a1 != 0 or p.data != b'SIG[%d]:' % i + (tok or b''):
                     viol.append({'msg': '%s: AUTH #%d is %r, expected the signature of key %d over the most recent token %r' % (tag, j, (p.a0, p.a1, p.data[:40]), i, tok)})
             else:
-                want = b'PUBKEY-0 user@host\0'
+                pk0 = StubSigner(0, pub_bytes).GetPublicKey()
+                want = (pk0 if isinstance(pk0, bytes) else pk0.encode('utf-8')) + b'\0'
                 if p.a0 != 3 or p.a1 != 0 or p.data != want:
                     viol.append({'msg': '%s: AUTH #%d is %r, expected the NUL-terminated public key of key 0' % (tag, j, (p.a0, p.a1, p.data[:40]))})
     # 3. callback
@@ -120,10 +130,10 @@ def run_one(params, ch):
     s = Session(ch, {'maxdata': maxdata}, twin=params['twin'])
     try:
         viol = []
-        r, log, states = one_connect(s, nkeys, cb, params['pub_bytes'], params['strays'], maxdata, viol, 'connect #1')
+        r, log, states = one_connect(s, nkeys, cb, params['pub_bytes'], params['strays'], maxdata, viol, 'connect #1', params.get('kform'))
         outcome = [r[:2], tuple(log)]
         if params.get('second'):
-            r2, log2, st2 = one_connect(s, nkeys, cb, params['pub_bytes'], False, maxdata, viol, 'connect #2 (after %r)' % (r[:2],))
+            r2, log2, st2 = one_connect(s, nkeys, cb, params['pub_bytes'], False, maxdata, viol, 'connect #2 (after %r)' % (r[:2],), params.get('kform'))
             outcome += [r2[:2], tuple(log2)]
             states += [('second',) + x for x in st2]
             r = r2
@@ -149,15 +159,18 @@ def run_one(params, ch):
 
 def parts(tier):
     twins = ('sync', 'async')
-    kmax = 4 if tier == 'quick' else 7
+    kmax = 4 if tier == 'quick' else 12
     sc = [{'nkeys': n, 'cb': cb, 'maxdata': md, 'twin': t, 'pub_bytes': pb, 'strays': False, 'push': True}
-          for n in range(0, kmax + 1) for cb in (None, 'record', 'raise') for md in (4096, 256 * 1024, 1024 * 1024) for t in twins for pb in (False, True)
+          for n in range(0, kmax + 1) for cb in (None, 'record', 'raise') for md in (4096, 256 * 1024, 1024 * 1024) for t in twins for pb in (False, True, 'nonascii')
           if (md == 1024 * 1024 or n <= 2) and (not pb or n in (1, 2))]
-    out = [Part('handshake', sc, run_one, {'*': None}, what='all device decision sequences for 0..%d keys x callback x maxdata x twins' % kmax, bound='complete for the decision alphabet')]
+    # the key collection may be omitted, None, or an empty/non-empty list or tuple: "challenged without keys" covers every empty form
+    sc += [dict(x, kform=kf) for x in sc if x['maxdata'] == 1024 * 1024 and not x['pub_bytes'] and x['nkeys'] <= 2
+           for kf in (('none', 'list', 'tuple') if x['nkeys'] == 0 else ('tuple',))]
+    out = [Part('handshake', sc, run_one, {'*': None}, what='all device decision sequences for 0..%d keys (omitted / None / empty and non-empty list and tuple) x callback x maxdata x twins' % kmax, bound='complete for the decision alphabet')]
     sc = [{'nkeys': n, 'cb': 'record', 'maxdata': 1024 * 1024, 'twin': t, 'pub_bytes': False, 'strays': True, 'push': False} for n in ((0, 1, 2) if tier == 'quick' else (0, 1, 2, 3)) for t in twins]
-    out.append(Part('strays', sc, run_one, {'*': None, 'stray': 2 if tier == 'quick' else 4}, what='stray packets of a dead stream before any awaited reply',
-                    bound='<=%d stray packets in total' % (2 if tier == 'quick' else 4)))
+    out.append(Part('strays', sc, run_one, {'*': None, 'stray': 2 if tier == 'quick' else 5}, what='stray packets of a dead stream before any awaited reply',
+                    bound='<=%d stray packets in total' % (2 if tier == 'quick' else 5)))
     sc = [{'nkeys': n, 'cb': cb, 'maxdata': 4096, 'twin': t, 'pub_bytes': False, 'strays': False, 'second': True, 'push': True}
-          for n in ((0, 1, 2) if tier == 'quick' else (0, 1, 2, 3)) for cb in (None, 'record') for t in twins]
-    out.append(Part('reconnect', sc, run_one, {'*': None}, what='a second connect() on the same object under every outcome of the first', bound='keys <= 2, all decision sequences of both'))
+          for n in ((0, 1, 2) if tier == 'quick' else (0, 1, 2, 3, 4)) for cb in (None, 'record') for t in twins]
+    out.append(Part('reconnect', sc, run_one, {'*': None}, what='a second connect() on the same object under every outcome of the first', bound='keys <= %d, all decision sequences of both' % (2 if tier == 'quick' else 4)))
     return out
